@@ -206,7 +206,8 @@ def run(ctx):
                                "the certificate checker rejects %s of %s%s" % (q, proj["name"], (": " + why) if why else " (operand-stack shape)"),
                                {"project": {k: v for k, v in proj.items() if k != "tree"}, "function": q,
                                 "listing": ["%d %s %s" % (i, opname.get(op, op), " ".join(a)) for i, (op, a) in enumerate(code)],
-                                "structural_defect": why}, found_input=why is not None)
+                                "structural_defect": why,
+                                "note": "the program above is the failing input: the compiler emits this function for it"}, found_input=True)
                 else:
                     n_ext += 1
                     why = extended_structural_check(code, opname)
